@@ -1390,13 +1390,12 @@ private:
           }
           else if (isPlausibleEpochMs(expiryMs))
           {
-            const auto exp = fromEpochMs(expiryMs);
-            if (exp > now)
-            {
-              _kv[key] = std::move(value);
-              _expiry[key] = ExpiryEntry{exp, core::InvalidTimerId};
-            }
-            // else: already expired at load — drop the entry entirely.
+            // Keep the entry even if its expiry has already passed: a later log
+            // record ('X' persist/extend, 'S' overwrite) may still clear or move
+            // the expiry. Entries that are still expired once the whole log has
+            // been replayed are dropped by dropExpiredAfterReplay().
+            _kv[key] = std::move(value);
+            _expiry[key] = ExpiryEntry{fromEpochMs(expiryMs), core::InvalidTimerId};
           }
           // else: implausible (corrupt) expiry — drop the entry, mirroring the
           // 'E' log op's sanity-bound rejection (KTP-11). NOT kept as eternal.
@@ -1412,7 +1411,10 @@ private:
     // Load log with enhanced error handling and corruption detection
     std::ifstream log(_logPath, std::ios::binary);
     if (!log.is_open())
+    {
+      dropExpiredAfterReplay(now);
       return; // No log file yet
+    }
 
     while (log.peek() != EOF)
     {
@@ -1523,16 +1525,11 @@ private:
           std::memcpy(value.data(), ptr, valLen);
         }
         const auto exp = fromEpochMs(expiryMs);
-        if (exp > now)
-        {
-          _kv[key] = std::move(value);
-          _expiry[key] = ExpiryEntry{exp, core::InvalidTimerId};
-        }
-        else
-        {
-          _kv.erase(key); // already expired → drop
-          _expiry.erase(key);
-        }
+        // Applied even if already expired: the final state of the key is only
+        // known after the whole log has been replayed (a later 'X' may persist or
+        // extend it); see dropExpiredAfterReplay().
+        _kv[key] = std::move(value);
+        _expiry[key] = ExpiryEntry{exp, core::InvalidTimerId};
       }
       else if (op == 'X')
       {
@@ -1552,16 +1549,8 @@ private:
         }
         else if (isPlausibleEpochMs(expiryMs))
         {
-          const auto exp = fromEpochMs(expiryMs);
-          if (exp > now)
-          {
-            _expiry[key] = ExpiryEntry{exp, core::InvalidTimerId};
-          }
-          else
-          {
-            _kv.erase(key); // expiry already past → drop the key
-            _expiry.erase(key);
-          }
+          // Applied even if already past (see 'E'); swept after the replay.
+          _expiry[key] = ExpiryEntry{fromEpochMs(expiryMs), core::InvalidTimerId};
         }
         // implausible expiry → ignore
       }
@@ -1569,6 +1558,27 @@ private:
       {
         _kv.erase(key);
         _expiry.erase(key);
+      }
+    }
+
+    dropExpiredAfterReplay(now);
+  }
+
+  /// \brief Drop every key whose FINAL expiry (after snapshot + full log replay)
+  /// has passed. Expiry must not be judged record by record: an expired 'E'
+  /// record may be followed by an 'X' record that persists or extends the key.
+  void dropExpiredAfterReplay(std::chrono::system_clock::time_point now)
+  {
+    for (auto it = _expiry.begin(); it != _expiry.end();)
+    {
+      if (it->second.expiry <= now)
+      {
+        _kv.erase(it->first);
+        it = _expiry.erase(it);
+      }
+      else
+      {
+        ++it;
       }
     }
   }
